@@ -46,6 +46,7 @@ pub fn iff_ops() -> Vec<(OpK, Vec<Vec<usize>>)> {
         OpK::Sum(2),
         OpK::Reshape(vec![3, 2]),
         OpK::UScale(2.0),
+        OpK::UIdent,
     ] {
         out.push((op, vec![m23.clone()]));
     }
@@ -185,7 +186,7 @@ fn explore_iff(opts: &Opts) -> Local {
                 }
                 drop(bases);
                 // ownership: with no tracked operand the result keeps no reference to its operands
-                if !any && !matches!(op, OpK::Reshape(_) | OpK::Sum(0)) {
+                if !any && !matches!(op, OpK::Reshape(_) | OpK::Sum(0) | OpK::UIdent) {
                     for (k, a) in leaves.into_iter().enumerate() {
                         let ok = run_catch(move || Vec::<Float>::from(a).len());
                         if ok.is_err() {
@@ -308,6 +309,6 @@ pub fn explore(opts: &Opts) -> Explored {
                        "flag_actions": ["tracked()", "untracked()", "start_tracking()", "stop_tracking()"]}),
         rule: "E3 part: explicit-state BFS over histories of build / flag (on handles, leaves and clones) / clone / backward / fetch / adopt executed on the real library; after every step every handle's tracking flag, gradient presence and gradient value equal the reference's tracking semantics (edges carry gradients iff the operand handle was tracked when used; nothing flows below an untracked intermediate; a pass leaves flags unchanged; a flag set on a clone never changes the original; stored gradients are untracked and independent arrays). E1 part: every operation instance x every tracked/untracked assignment of its operands: result flag iff some operand tracked, operand flags untouched by the operation and by a pass, gradients exactly on tracked operands, gradients untracked and graph-free, untracked operands not retained".into(),
         exhaustive: true,
-        assumptions: vec!["reshape and sum(0) share storage by design and are exempt from the ownership probe only".into()],
+        assumptions: vec!["reshape, sum(0) and the identity user operation (whose closure returns a clone) share storage by design and are exempt from the ownership probe only".into()],
     }
 }
